@@ -408,7 +408,7 @@ func (x *Exec) doIndexAddr(fr *Frame, in *ssa.IndexAddr, reach *Term, st *State)
 		ln := base.L[2]
 		x.vc.oblige("index", fmt.Sprintf("index#%d", x.vc.ord("index")), reach, mkAnd(bvCmp("bvsle", mkBVu(0, 64), idx), bvCmp("bvslt", idx, ln)), x.pos(in.Pos()), "index out of range")
 		el := bt.Elem()
-		fr.vals[in] = &Sym{T: in.Type(), LV: &LVal{Root: RElem, Ref: base.L[0], Idx: x.vc.name("ix", bvBin("bvadd", base.L[1], idx)), RootT: el, T: el}}
+		fr.vals[in] = &Sym{T: in.Type(), LV: &LVal{Root: RElem, Ref: base.L[0], Idx: elemIndex(base.L[1], idx), RootT: el, T: el}}
 	case *types.Pointer:
 		arr := bt.Elem().Underlying().(*types.Array)
 		n := mkBVu(uint64(arr.Len()), 64)
